@@ -280,8 +280,7 @@ class Specs:
             return parse_ty(self.literal_types[key]).elem
         if vs:
             return vs[0].ty
-        raise Unsupported(f'element type of list literal `{ast.unparse(node)}` in {fr.fi.qualname} unknown '
-                          f'(declare with literal())')
+        return T_ANY      # an undeclared empty list literal (e.g. introduced by a change): elements are any objects
 
     def literal_dict_type(self, fr, node):
         key = (fr.fi.qualname, ast.unparse(node))
